@@ -79,8 +79,14 @@ func suiteConvert(e *Env) {
 	}
 }
 
+var lastPanic string
+
 func class(err error, p any) string {
 	if p != nil {
+		if s, ok := p.(string); ok && strings.Contains(s, "Int overflow") {
+			return "overflow" // LegacyDec range assertion (2^256*10^18): outside the unbounded model
+		}
+		lastPanic = fmt.Sprint(p)
 		return "panic"
 	}
 	if err != nil {
